@@ -253,6 +253,8 @@ EDGE = \
           for f in ('7.1', '0.001', '1e-6') for n in (12, 30, 51, 52, 53, 60, 120) for x in ([], [['--output-basic-input', '@TMP@/o.mini']], [['--output-cmdline', '@TMP@/o.pym']])
     ] + [ [['-f', f], ['-w', '10,0,0,0,0,0,10,0.01'], ['--laplace-load-a', '1,' + ','.join (['0'] * n) + ',' + v], ['--laplace-load-b', '1,1'], ['--attach-load', '1,2']]
           for f in ('7.1', '0.001') for n in (0, 3, 20, 49) for v in ('1e-300', '1e290', '1e300', '1e308', '1e5')
+    ] + [ [['-f', f], ['-w', '10,0,0,0,0,0,10,0.01'], ['--laplace-load-a', '1,' + ','.join (['0'] * n)], ['--laplace-load-b', '1,1' + ',0' * m], ['--attach-load', '1,2']] + x
+          for f in ('7.1', '0.001') for n in (49, 50, 51, 52, 55, 80) for m in (0, 60) for x in ([], [['--output-basic-input', '@TMP@/o.mini']])
     ]
 
 def plan (tier, seed):
